@@ -35,6 +35,8 @@ class C05(Prop):
         c = {"jdd": jdd, "sizes": sizes, "N": N, "chosen": chosen, "picks": picks}
         if rng.random() < 0.3:
             c["warmup"] = rng.randint(1, 7)
+        if i % 7 == 3:
+            c["key_type"] = rng.choice(["uint32", "uint16", "int64"])      # degrees as NumPy integers (keys read off an array)
         return c
 
     def impl(self, case):
@@ -42,6 +44,10 @@ class C05(Prop):
         from gcmpy.joint_degree.joint_degree_loaders.joint_degree_manual import JointDegreeManual
         from gcmpy.names.joint_degree_names import JointDegreeNames as JN
         jdd = {tuple(k): w for k, w in case["jdd"]}
+        if case.get("key_type"):
+            import numpy as np
+            ty = getattr(np, case["key_type"])
+            jdd = {tuple(ty(x) for x in k): w for k, w in case["jdd"]}
         obj = JointDegreeManual({JN.JDD: jdd, JN.MOTIF_SIZES: list(case["sizes"])})
         picks = list(case["picks"])
         chosen_keys = [tuple(case["jdd"][i][0]) for i in case["chosen"]]
@@ -131,7 +137,8 @@ class C05(Prop):
         if len(out) != N:
             f.append(f"length: {len(out)} joint degrees returned for N={N}")
             return f
-        if obs["types"] != ["tuple"] or obs["elem_types"] not in (["int"], []):
+        ok_elems = {"int"} | ({"uint8", "uint16", "uint32", "uint64", "int64", "int32"} if case.get("key_type") else set())
+        if obs["types"] != ["tuple"] or not set(obs["elem_types"]) <= ok_elems:
             f.append(f"entry-not-tuple: entries have types {obs['types']} of {obs['elem_types']}")
         if any(v < 0 for r in out for v in r):
             f.append("negative-entry")
